@@ -28,7 +28,7 @@ CHECKS = {
             "Crash model as stated by the property (atomic ordered batch writes; no torn batches; backend durability not modelled). Oracles M and R.",
             "DESIGN.md §3 C05"),
     "C06": ("exploration",
-            "sanitizer + runtime monitoring: Go race detector over a writer/readers stress workload with widened windows; snapshot oracle for every concurrent read; deterministic parking of the writer at verif yield points (hook points x reader operations enumerated); porcupine linearizability check of the commit/prune/open visibility history; export-pin protocol check",
+            "sanitizer + runtime monitoring: Go race detector over a writer/readers stress workload with widened windows; snapshot oracle for every concurrent read; deterministic parking of the writer at verif yield points (hook points x reader operations enumerated, commit rounds on cold handles); pause/between schedules at the storage seam; a deliberate canary race proving the report path; porcupine linearizability check of the commit/prune/open visibility history; export-pin protocol check",
             "Race-detector build. Stress runs (8 configurations x repetitions x 2-16 readers) with every reader result compared to the snapshot published at commit; oracle mode parks the writer at the protocol boundaries and runs every reader operation there; visibility history checked against the per-version model; pinned versions cannot be deleted.",
             "Only schedules that happened are judged. Race reports are attributed to iavl only if both stacks contain a non-test iavl frame. MutableTree methods other than GetImmutable are not called concurrently (outside the statement).",
             "DESIGN.md §3 C06"),
@@ -58,7 +58,7 @@ CHECKS = {
             "Trusted: M, R; twin construction from recorded per-version writes. Raw-store equality with the twin is recorded only.",
             "DESIGN.md §3 C09"),
     "C10": ("exploration",
-            "runtime monitoring: export stream vs reference post-order stream, import round trips (plain/compressed) judged by hash, model reads, ICS-23 proofs, raw audit and future commit hashes; hostile-stream fuzzing of the importers with panic/visibility oracle",
+            "runtime monitoring: export stream vs reference post-order stream, import round trips (plain/compressed) judged by hash, model reads, ICS-23 proofs, raw audit and future commit hashes; hostile-stream fuzzing of the importers with panic/visibility oracle; three-batch imports with every batch write failed once (deadlock verdict from goroutine dumps)",
             "Fidelity on generated histories incl. empty tree, single leaf, reference roots and >10000-node imports; totality on ~48000 (quick) hostile ExportNode sequences: no panic, and nothing visible unless Commit succeeded.",
             "Trusted: R (stream, future hashes), M, ics23. Storage faults during import are C17's subject.",
             "DESIGN.md §3 C10"),
@@ -78,7 +78,7 @@ CHECKS = {
             "Trusted: model M incl. its per-version 'last op was a Set' bookkeeping; R for original hashes.",
             "DESIGN.md §3 C15"),
     "C17": ("fault_enumeration",
-            "runtime monitoring with systematic single-fault enumeration at the storage seam (every storage call of every public operation fails once) plus random multi-fault runs; differential oracle against the fault-free result and the C05 state oracle",
+            "runtime monitoring with systematic single-fault enumeration at the storage seam (every storage call of every public operation fails once) plus random multi-fault runs; differential oracle against the fault-free result and the C05 state oracle; same-handle follow-up after every fault; never-returning calls decided from goroutine dumps",
             "Each public operation with an error result is run fault-free on a fresh handle to number its storage calls, then once per call index with exactly that call failing (Get, Has, iterator creation/step, batch Set/Delete/Write): it must return an error or exactly the fault-free result, never panic; a write operation with a failed write must not report success, and the store left behind must reopen to the state before or after.",
             "Faults are injected at the corestore interface; a failed batch write applies nothing. Operations without an error result are outside the statement.",
             "DESIGN.md §3 C17"),
@@ -88,22 +88,22 @@ CHECKS = {
             "Trusted: M, R, v1 as second reference. The values returned by v2 Set/Remove are recorded, not judged (not part of the statement). Pool-poisoning hook and ASan build were not built.",
             "DESIGN.md §3 C19"),
     "C20": ("exploration",
-            "runtime monitoring: close/reopen differential - every version reloaded by a fresh tree and compared with the recorded hash and the model; continuation compared with the reference; prune + reopen; snapshot round trips (SaveSnapshot/LoadSnapshot, Export -> WriteSnapshot -> LoadSnapshot in both orders)",
+            "runtime monitoring: close/reopen differential - every version reloaded by a fresh tree and compared with the recorded hash and the model; continuation compared with the reference; prune + reopen; snapshot round trips (SaveSnapshot/LoadSnapshot, Export -> WriteSnapshot -> LoadSnapshot in both orders); commits under a foreign SQLite write lock (acknowledged commits must reload)",
             "For every version t of a generated history LoadVersion(t) on a fresh tree must reproduce hash, size, reads and iteration (targets on / just after / far after a checkpoint); continuing from the reloaded latest must reproduce the reference's hashes; after DeleteVersionsTo(n) has drained (bounded polling of the SQLite files) the latest version and all versions from the last checkpoint not after n must load; snapshots import to the source version's hash and contents.",
             "Trusted: M, R. Background pruning has no completion signal: not draining within the bound is INCONCLUSIVE. A store written by WriteSnapshot is read back with LoadSnapshot (as the property states), not with LoadVersion.",
             "DESIGN.md §3 C20"),
     "C04": ("exploration",
-            "runtime monitoring: before/after observation vectors (hash, contents, reads, ICS-23 proof verification) around every DeleteVersionsTo, live and after reopen; raw-store comparison for rejected requests; export pin",
+            "runtime monitoring: before/after observation vectors (hash, contents, reads, ICS-23 proof verification) around every DeleteVersionsTo, live and after reopen; raw-store comparison for rejected requests; export pins (opened before the request, or held since the version was the latest)",
             "Around every DeleteVersionsTo(n) in thousands of generated histories (no-op commits, empty versions, single-leaf roots, rollbacks + rewrites, deletions split over several physical batches by small flush thresholds), an observation vector of every later version is recorded before and compared after the call, on the live handle and on a freshly opened one; deleted versions must be unavailable on every API; rejected requests (latest version, version pinned by an open Exporter) must leave the raw store byte-identical.",
             "Trusted: model M, the ics23 verifier. Synchronous pruning only (async pruning is exercised by C06).",
             "DESIGN.md §3 C04"),
     "C12": ("exploration",
-            "runtime monitoring: raw-storage audit after every step with an independent decoder (reachability from the retained versions, leak detection, fast-index entries and label)",
+            "runtime monitoring: raw-storage audit after every step with an independent decoder (reachability from the retained versions, leak detection, fast-index entries and label), also on stores produced by the importer",
             "After every step of thousands of crash-free histories the raw store is decoded with the independent decoder D and audited: every retained version decodable with all child links resolving and contents equal to the model, every stored node reachable from a retained version, fast index entries + label describing exactly the latest version.",
             "Trusted: decoder D and model M (R is deliberately not used). Synchronous pruning, no faults.",
             "DESIGN.md §3 C12"),
     "C14": ("exploration",
-            "runtime monitoring: version-range model compared with every bookkeeping API after every step, on the live handle and on a fresh handle; raw-store comparison for rejected requests",
+            "runtime monitoring: version-range model compared with every bookkeeping API after every step, on the live handle and on a fresh handle; raw-store comparison for rejected requests; full read battery of the working state after every rejected request",
             "After every step: commit numbering, VersionExists / AvailableVersions / GetImmutable / GetLatestVersion / GetVersioned / LoadVersion for every version number in {0,1,first-2..latest+1} on the live handle and after a reopen; re-commit of an existing version number accepted iff the reference tree says the hash is identical; rejected requests leave the raw store byte-identical and the tree usable.",
             "Trusted: model M (range), reference tree R (hash equality of re-commits).",
             "DESIGN.md §3 C14"),
